@@ -199,17 +199,17 @@ def _run_chunk(cmd, env, lines):
 
 
 def run_sharded(cmd, env, lines, shards=NPROC):
+    """round-robin distribution over `shards` processes (balances slow cases), results in input order"""
     n = len(lines)
     if n == 0:
         return []
     shards = max(1, min(shards, (n + 49) // 50))
-    size = (n + shards - 1) // shards
-    chunks = [lines[i:i + size] for i in range(0, n, size)]
+    chunks = [lines[i::shards] for i in range(shards)]
     with ThreadPoolExecutor(max_workers=len(chunks)) as ex:
         outs = list(ex.map(lambda c: _run_chunk(cmd, env, c), chunks))
-    res = []
-    for o in outs:
-        res.extend(o)
+    res = [None] * n
+    for i, o in enumerate(outs):
+        res[i::shards] = o
     return res
 
 
